@@ -579,3 +579,223 @@ Qed.
 
 Lemma reach_inv : forall st, reach st -> Inv st.
 Proof. intros st H. induction H; [apply inv_init|apply step_inv; assumption]. Qed.
+
+(** ** The property, stated on the observations of a history *)
+
+(** the live query: what QUERY q returns — the matching events, the response writer dropping repeated ids *)
+Definition live (q : query) (l : layout) : list event := dedup_seen [] (sel q l).
+
+Definition expected_len (q : query) (l : layout) : N :=
+  match q_limit q with None => lenN (live q l) | Some n => N.min n (lenN (live q l)) end.
+
+(** [out] is an answer of the live query: its rows, each once (for LIMIT n: any n of them) *)
+Definition is_answer (q : query) (l : layout) (out : list event) : Prop :=
+  NoDup (map e_k out) /\ (forall e, In e out -> In e (live q l)) /\ lenN out = expected_len q l.
+
+Definition is_answer_b (q : query) (l : layout) (out : list event) : bool :=
+  nodupN (map e_k out) && forallb (fun e => in_events e (live q l)) out && (lenN out =? expected_len q l).
+
+Lemma is_answer_b_spec : forall q l out, is_answer_b q l out = true <-> is_answer q l out.
+Proof.
+  intros q l out. unfold is_answer_b, is_answer. rewrite !andb_true_iff, nodupN_NoDup, forallb_forall, N.eqb_eq.
+  split.
+  - intros [[H1 H2] H3]. split; [exact H1|split; [|exact H3]].
+    intros e He. apply in_events_In. apply H2. exact He.
+  - intros [H1 [H2 H3]]. split; [split; [exact H1|]|exact H3].
+    intros e He. apply in_events_In. apply H2. exact He.
+Qed.
+
+Lemma dedup_seen_nodup : forall l seen,
+  NoDup (map e_id l) -> (forall e, In e l -> ~ In (e_id e) seen) -> dedup_seen seen l = l.
+Proof.
+  induction l as [|e l IH]; intros seen Hn Hs; cbn [dedup_seen]; [reflexivity|].
+  destruct (memN (e_id e) seen) eqn:M.
+  - apply memN_In in M. exfalso. apply (Hs e (or_introl eq_refl)). exact M.
+  - f_equal. cbn [map] in Hn. inversion Hn as [|? ? Hx Hd]; subst. apply IH; [exact Hd|].
+    intros x Hx' [Heq|Hin].
+    + apply Hx. rewrite Heq. apply in_map. exact Hx'.
+    + apply (Hs x (or_intror Hx')). exact Hin.
+Qed.
+
+Lemma NoDup_map_filter : forall {A B} (f : A -> B) (p : A -> bool) l, NoDup (map f l) -> NoDup (map f (filter p l)).
+Proof.
+  intros A B f p l. induction l as [|x l IH]; cbn [map filter]; intros H; [constructor|].
+  inversion H as [|? ? Hx Hd]; subst. destruct (p x); cbn [map]; [|apply IH; exact Hd].
+  constructor; [|apply IH; exact Hd]. intro Hin. apply Hx. apply in_map_iff in Hin.
+  destruct Hin as [y [Hy Hin]]. apply filter_In in Hin. rewrite <- Hy. apply in_map. apply Hin.
+Qed.
+
+Lemma live_sel : forall q l, layout_ok l -> live q l = sel q l.
+Proof.
+  intros q l [H _]. unfold live. apply dedup_seen_nodup; [|intros e _ []].
+  unfold sel. apply NoDup_map_filter. unfold dup_content in H. apply orb_false_iff in H. destruct H as [_ H].
+  apply negb_false_iff in H. apply nodupN_NoDup. exact H.
+Qed.
+
+Lemma perm_is_answer : forall q l out, layout_ok l -> q_limit q = None ->
+  Permutation out (sel q l) -> is_answer q l out.
+Proof.
+  intros q l out Hl Hlim Hp. unfold is_answer, expected_len. rewrite Hlim, (live_sel q l Hl). split; [|split].
+  - eapply Permutation_NoDup; [apply Permutation_map; apply Permutation_sym; exact Hp|].
+    unfold sel. apply NoDup_map_filter. apply layout_ok_nodup_keys. exact Hl.
+  - intros e He. eapply Permutation_in; eassumption.
+  - unfold lenN. f_equal. apply Permutation_length. exact Hp.
+Qed.
+
+(** every SHOW of the history returned an answer of the live query of that moment *)
+Definition show_ok (st : state) (o : op) : Prop :=
+  match o, snd (step st o) with
+  | OShow name _, ObsShow out _ _ =>
+      match lookup name (st_entries st) with
+      | Some en => is_answer (n_q en) (st_layout st) out
+      | None => False
+      end
+  | _, _ => True
+  end.
+Fixpoint shows_ok (st : state) (ops : list op) : Prop :=
+  match ops with
+  | [] => True
+  | o :: r => show_ok st o /\ shows_ok (fst (step st o)) r
+  end.
+
+Definition show_ok_b (st : state) (o : op) : bool :=
+  match o, snd (step st o) with
+  | OShow name _, ObsShow out _ _ =>
+      match lookup name (st_entries st) with
+      | Some en => is_answer_b (n_q en) (st_layout st) out
+      | None => false
+      end
+  | _, _ => true
+  end.
+Fixpoint shows_ok_b (st : state) (ops : list op) : bool :=
+  match ops with
+  | [] => true
+  | o :: r => show_ok_b st o && shows_ok_b (fst (step st o)) r
+  end.
+
+Lemma shows_ok_b_spec : forall ops st, shows_ok st ops -> shows_ok_b st ops = true.
+Proof.
+  induction ops as [|o r IH]; intros st; cbn [shows_ok shows_ok_b]; [reflexivity|].
+  intros [H1 H2]. rewrite (IH _ H2), andb_true_r. unfold show_ok in H1. unfold show_ok_b.
+  destruct o; try reflexivity. destruct (snd (step st (OShow name ch))); try reflexivity.
+  destruct (lookup name (st_entries st)); [apply is_answer_b_spec; exact H1|contradiction].
+Qed.
+
+(** no operation of the history falls into a known class (and events are only added, ids are non-zero) *)
+Fixpoint no_known (st : state) (ops : list op) : Prop :=
+  match ops with
+  | [] => True
+  | o :: r => good_op st o /\ no_known (fst (step st o)) r
+  end.
+
+Definition KnownClass (c : known_class) (st : state) (o : op) : Prop := In c (classes_of st o).
+
+Lemma no_class_good : forall st o, (forall c, ~ KnownClass c st o) -> classes_of st o = [].
+Proof.
+  intros st o H. unfold KnownClass in H. destruct (classes_of st o) as [|c r]; [reflexivity|].
+  exfalso. apply (H c). left. reflexivity.
+Qed.
+
+Lemma step_show_inv : forall st name ch st' out nf m,
+  step st (OShow name ch) = (st', ObsShow out nf m) ->
+  exists en, lookup name (st_entries st) = Some en /\
+    show_frames (n_q en) (n_frames en) (st_layout st) ch = Some nf /\
+    out = show_output (n_q en) (n_frames en) nf /\
+    m = frames_mark (n_frames en ++ nf) /\
+    st' = mkState (st_layout st) (update name (mkEntry (n_q en) (n_frames en ++ nf)) (st_entries st)).
+Proof.
+  intros st name ch st' out nf m H. cbn [step] in H.
+  destruct (lookup name (st_entries st)) as [en|]; [|inversion H].
+  destruct (show_frames (n_q en) (n_frames en) (st_layout st) ch) as [nf'|] eqn:Sf; [|inversion H].
+  inversion H; subst. exists en. repeat split; try reflexivity. exact Sf.
+Qed.
+
+Theorem show_eq_query_core : forall st name ch st' out nf m,
+  reach st ->
+  classes_of st (OShow name ch) = [] ->
+  step st (OShow name ch) = (st', ObsShow out nf m) ->
+  exists en, lookup name (st_entries st) = Some en /\
+    Permutation out (sel (n_q en) (st_layout st)) /\ NoDup (map e_k out).
+Proof.
+  intros st name ch st' out nf m Hr Hc Hs. pose proof (reach_inv _ Hr) as [Hl Hen].
+  destruct (step_show_inv _ _ _ _ _ _ _ Hs) as [en [Lk [Sf [Eo _]]]].
+  exists en. split; [exact Lk|]. cbn [classes_of] in Hc. rewrite Lk, Sf in Hc.
+  assert (Hld : nonempty nf && negb (last_dominates nf) = false).
+  { destruct (nonempty nf && negb (last_dominates nf)); [discriminate|reflexivity]. }
+  destruct (show_step _ _ _ _ Hl (Hen _ _ Lk) Sf Hld) as [Hp _]. rewrite <- Eo in Hp.
+  split; [exact Hp|].
+  eapply Permutation_NoDup; [apply Permutation_map; apply Permutation_sym; exact Hp|].
+  unfold sel. apply NoDup_map_filter. apply layout_ok_nodup_keys. exact Hl.
+Qed.
+
+Theorem show_eq_query_outside_known : forall ops st, reach st -> no_known st ops -> shows_ok st ops.
+Proof.
+  induction ops as [|o r IH]; intros st Hr; cbn [no_known shows_ok]; [trivial|].
+  intros [Hg Hn]. split; [|apply IH; [apply reach_step; assumption|exact Hn]].
+  unfold show_ok. destruct o as [l|name q ch|name ch]; try exact I.
+  destruct (step st (OShow name ch)) as [st' ob] eqn:Hs. cbn [snd].
+  destruct ob as [| | |out nf m| |]; try exact I.
+  destruct (show_eq_query_core _ _ _ _ _ _ _ Hr (proj1 Hg) Hs) as [en [Lk [Hp _]]]. rewrite Lk.
+  pose proof (reach_inv _ Hr) as [Hl Hen]. apply perm_is_answer; [exact Hl|apply (Hen _ _ Lk)|exact Hp].
+Qed.
+
+(** a second SHOW with no new data in between returns the same rows and appends nothing *)
+Theorem show_idempotent : forall st name ch1 ch2 st1 out1 nf1 m1 st2 out2 nf2 m2,
+  reach st -> good_op st (OShow name ch1) ->
+  step st (OShow name ch1) = (st1, ObsShow out1 nf1 m1) ->
+  classes_of st1 (OShow name ch2) = [] ->
+  step st1 (OShow name ch2) = (st2, ObsShow out2 nf2 m2) ->
+  Permutation out2 out1 /\ nf2 = [] /\ m2 = m1.
+Proof.
+  intros st name ch1 ch2 st1 out1 nf1 m1 st2 out2 nf2 m2 Hr Hg H1 Hc2 H2.
+  assert (Hr1 : reach st1).
+  { replace st1 with (fst (step st (OShow name ch1))) by (rewrite H1; reflexivity). apply reach_step; assumption. }
+  destruct (show_eq_query_core _ _ _ _ _ _ _ Hr (proj1 Hg) H1) as [en [Lk [Hp1 _]]].
+  destruct (show_eq_query_core _ _ _ _ _ _ _ Hr1 Hc2 H2) as [en1 [Lk1 [Hp2 _]]].
+  destruct (step_show_inv _ _ _ _ _ _ _ H1) as [en' [Lk' [Sf1 [Eo1 [Em1 Est1]]]]].
+  rewrite Lk in Lk'. inversion Lk'; subst en'; clear Lk'.
+  destruct (step_show_inv _ _ _ _ _ _ _ H2) as [en1' [Lk1' [Sf2 [Eo2 [Em2 _]]]]].
+  rewrite Lk1 in Lk1'. inversion Lk1'; subst en1'; clear Lk1'.
+  assert (Een1 : en1 = mkEntry (n_q en) (n_frames en ++ nf1)).
+  { rewrite Est1 in Lk1. cbn [st_entries] in Lk1. rewrite lookup_update, N.eqb_refl, Lk in Lk1. inversion Lk1. reflexivity. }
+  assert (Hlay : st_layout st1 = st_layout st) by (rewrite Est1; reflexivity).
+  pose proof (reach_inv _ Hr1) as [Hl1 Hen1]. specialize (Hen1 _ _ Lk1).
+  cbn [classes_of] in Hc2. rewrite Lk1, Sf2 in Hc2.
+  assert (Hld : nonempty nf2 && negb (last_dominates nf2) = false).
+  { destruct (nonempty nf2 && negb (last_dominates nf2)); [discriminate|reflexivity]. }
+  destruct (show_step _ _ _ _ Hl1 Hen1 Sf2 Hld) as [_ [_ Hd]].
+  assert (Hnf2 : nf2 = []).
+  { (* nothing is above the mark: everything matching is already stored *)
+    destruct Hen1 as [_ Hst]. rewrite Een1 in Hst, Hd. cbn [n_q n_frames] in Hst, Hd.
+    pose proof (sel_split (n_q en) (frames_mark (n_frames en ++ nf1)) (st_layout st1)) as Hsp.
+    assert (Hlen : length (concat nf2) = 0%nat).
+    { apply Permutation_length in Hsp, Hst, Hd. rewrite app_length in Hsp.
+      assert (X : length (concat (n_frames en ++ nf1)) = length (sel (n_q en) (st_layout st1))).
+      { rewrite Hlay. rewrite concat_app. rewrite Eo1 in Hp1. unfold show_output, wm_enabled in Hp1.
+        pose proof (reach_inv _ Hr) as [_ Hen0]. destruct (Hen0 _ _ Lk) as [[Htf _] _]. rewrite Htf in Hp1.
+        apply Permutation_length. exact Hp1. }
+      lia. }
+    destruct nf2 as [|f r]; [reflexivity|]. exfalso.
+    unfold show_frames in Sf2. rewrite Een1 in Sf2. cbn [n_q n_frames] in Sf2.
+    pose proof (reach_inv _ Hr) as [_ Hen0]. destruct (Hen0 _ _ Lk) as [[_ Hlim] _]. rewrite Hlim in Sf2.
+    match type of Sf2 with (if valid_order ?b ?o then _ else _) = _ => destruct (valid_order b o) eqn:V; [|discriminate] end.
+    inversion Sf2 as [Hfr].
+    assert (Hf : f <> []).
+    { eapply valid_order_nonempty; [exact V|]. rewrite Hfr. left. reflexivity. }
+    cbn [concat] in Hlen. rewrite app_length in Hlen. destruct f; [contradiction|cbn [length] in Hlen; lia]. }
+  split; [|split; [exact Hnf2|]].
+  - eapply perm_trans; [exact Hp2|]. rewrite Een1, Hlay. cbn [n_q]. apply Permutation_sym. exact Hp1.
+  - rewrite Em2, Em1, Een1, Hnf2, app_nil_r. reflexivity.
+Qed.
+
+Theorem remember_dup_rejected : forall st name q ch en,
+  lookup name (st_entries st) = Some en -> step st (ORemember name q ch) = (st, ObsRejected).
+Proof. intros st name q ch en H. cbn [step]. rewrite H. reflexivity. Qed.
+
+(** … and a REMEMBER under a fresh name is not rejected *)
+Theorem remember_fresh_accepted : forall st name q ch,
+  lookup name (st_entries st) = None -> snd (step st (ORemember name q ch)) <> ObsRejected.
+Proof.
+  intros st name q ch H. cbn [step]. rewrite H.
+  destruct (remember_frames q (st_layout st) ch); cbn [snd]; discriminate.
+Qed.
